@@ -63,10 +63,15 @@ struct GenCtx {
   int budget = 0;                  // statements left for this routine
   bool in_ite = false;
   int jl_serial = 0;
+  std::string last_var;
   int in_slot = 0;   // inside text that a user macro must match as a slot (<V>, <P>, <ARGS>)
 };
 
-std::string pick_var(GenCtx &c) { return c.vars[c.rng.below(c.vars.size())]; }
+std::string pick_var(GenCtx &c) {
+  if (c.gp.locality > 0 && !c.last_var.empty() && (int)c.rng.below(100) < c.gp.locality) return c.last_var;
+  c.last_var = c.vars[c.rng.below(c.vars.size())];
+  return c.last_var;
+}
 
 long long pick_const(GenCtx &c) {
   if (c.gp.boundary_values && c.rng.chance(1, 2)) {
@@ -182,6 +187,13 @@ std::vector<Stmt> gen_block(GenCtx &c, int depth, int maxn) {
   for (int i = 0; i < n && (c.budget > 0 || b.empty()); i++) {
     c.budget--;
     b.push_back(gen_stmt(c, depth));
+    if (b.back().k == Stmt::IF && c.gp.locality > 0 && c.rng.chance(1, 2)) {
+      // a chain of tests on one variable, possibly with a call in between
+      std::string v = b.back().var;
+      if (c.rng.chance(1, 2)) { Stmt a; a.k = Stmt::ASSIGN; a.var = c.vars[c.rng.below(c.vars.size())]; a.val = gen_val(c, 0); b.push_back(a); }
+      Stmt j; j.k = Stmt::IF; j.var = v; j.c = pick_const(c); j.target = plan_label(c);
+      b.push_back(j);
+    }
   }
   return b;
 }
@@ -334,7 +346,7 @@ Ast generate_ast(Rng &rng, const GenParams &gp) {
       }
     }
     c.routine = i;
-    c.vars.clear();
+    c.vars.clear(); c.last_var.clear();
     for (auto &p : r.params) c.vars.push_back(p);
     if (r.has_out) c.vars.push_back(r.out); else c.vars.push_back("x0");
     int extra = (int)rng.range(0, 2);
@@ -352,7 +364,7 @@ Ast generate_ast(Rng &rng, const GenParams &gp) {
     a.defs.insert(a.defs.begin() + i + 1 + rng.below(a.defs.size() - i), copy);
   }
   c.routine = -1;
-  c.vars.clear();
+  c.vars.clear(); c.last_var.clear();
   int nv = (int)rng.range(2, 5);
   for (int k = 0; k < nv; k++) c.vars.push_back(VAR_POOL[rng.below(11)]);
   a.main = gen_routine_body(c, 6);
